@@ -14,7 +14,7 @@ CHECKS = {
     "C02": ("proof", "Lean refinement theorems: for ALL landscapes f, verdict oracles (stateful allowed) and backward visiting orders, the code-shaped standard/alternative forward phases, the backward phase and their composition satisfy the declarative oCSE rule (arg-max among undecided given initial+accepted, accept iff pass, std continues / alt stops, each accepted re-tested once against current survivors, levels alpha_f/alpha_b); consequences: result duplicate-free subset, one edge per survivor; end-to-end (Master.lean): discover_target_spec — the parents reported by the model's discover for each target are the survivors of the declarative rule on that target's own oracles and stream block. Tie: the real functions driven by scripted oracles, EXHAUSTIVE decision-tree enumeration for <=3 candidates (all weak orderings x verdicts x visiting orders), sampled to 8 candidates incl. NaN/tie-heavy landscapes; every implementation trace is replayed through the model and judged by the declarative checker specOK.",
             "NaN is ordered as NumPy's argmax treats it (first NaN wins, fails every comparison). Oracles are observed at module-attribute seams.",
             "Lean 4 refinement proof + exhaustive small-scope differential replay"),
-    "C03": ("proof", "Lean theorems on the model of shuffle_test for every finite null, alpha in (0,1), n>=1: threshold inside the order-statistic bracket of the (1-alpha) quantile, p = #{null >= obs}/n, value echoed, pass => p <= alpha+1/n, fail => p >= alpha-1/n (also for ANY threshold inside the bracket, covering NumPy's rounded interpolation), fully tied null never significant, exactly n surrogates each on (X permuted, Y, Z). Tie: real shuffle_test with the estimator seam spied (arrays/permutations recorded), scripted tie-free/partially tied/fully tied nulls and the five real estimators; exact comparison with the model's decision.",
+    "C03": ("proof", "Lean theorems on the model of shuffle_test for every finite null, alpha in (0,1), n>=1: threshold inside the order-statistic bracket of the (1-alpha) quantile, p = #{null >= obs}/n, value echoed, pass => p <= alpha+1/n, fail => p >= alpha-1/n (also for ANY threshold inside the bracket, covering NumPy's rounded interpolation), fully tied null never significant, exactly n surrogates each on (X permuted, Y, Z); the verdict/p-value comparison operators are REGENERATED from the source on every run and must equal the model's (ObC03, decideTestG_codeShape). Tie: real shuffle_test with the estimator seam spied (arrays/permutations recorded), scripted tie-free/partially tied/fully tied nulls and the five real estimators; exact comparison with the model's decision.",
             "np.percentile rounding is bracket-checked per call; Generator.permutation trusted; non-finite nulls outside the quantifier.",
             "Lean 4 proof + spy-based differential correspondence"),
     "C04": ("proof", "Lean theorem shuffle_level: for EVERY statistic, data set, N, n>=1, alpha: P(pass) <= (n-floor((n-1)(1-alpha)))/(n+1) under row-exchangeability (counting proof over Perm(Fin N)^(n+1), transported to the code's sampling scheme); corollary <= alpha+1/n under the decidable side condition SC(alpha,n) (true for the default 0.05/200); without SC only c04_level_partial is proved and literal_bound_fails gives a machine-checked counterexample. Tie = C03's correspondence of the same function. Measurements (not proofs): rejection frequency of the real test for the five estimators (exact binomial tail) and network fraction on white noise (Hoeffding), budget 1e-9.",
